@@ -446,7 +446,8 @@ def sort_match_arms(s):
     return "".join(out)
 
 
-_UNWRAPS = (("Option::expect(", "@v1::Some.0"), ("Option::unwrap(", "@v1::Some.0"), ("Result::expect(", "@v1::Ok.0"), ("Result::unwrap(", "@v1::Ok.0"))
+_UNWRAPS = (("Option::expect(", "@v1::Some.0"), ("Option::unwrap(", "@v1::Some.0"), ("Result::expect(", "@v1::Ok.0"), ("Result::unwrap(", "@v1::Ok.0"),
+            ("BTreeSet::iter(", ""), ("HashSet::iter(", ""), ("HashMap::iter(", ""), ("BTreeMap::iter(", ""))        # c.iter() is the container as a sequence
 _TESTS = (("Option::is_some(", "let v1::Some($)=", False), ("Option::is_none(", "let v1::Some($)=", True),
           ("Result::is_ok(", "let v1::Ok($)=", False), ("Result::is_err(", "let v1::Err($)=", False))
 
